@@ -39,7 +39,7 @@ CHECKS = {
              "reservation sizes, arguments (<= 2^40) and can_spill flags, that reserved() equals the sum of the live reservations before and after, that a failed fallible operation changes nothing, that a granted try_grow stays within the "
              "limit / the fair share, that peak >= current and peak-since-reset is the maximum, and that dropping every reservation returns the pool to zero. The pre-state is arbitrary, so the step is the inductive step for histories of any length.",
         note="SEQUENTIAL half of the property only: thread interleavings are outside (Kani executes atomics sequentially). Outside too: TrackConsumersPool (hashbrown map), SharedRegistration::drop/unregister (Kani mis-models that drop glue, see evidence `cuts`), "
-             "sizes above 2^40. Shims: parking_lot::Mutex, fmt::format, human_readable_size, log::debug!, DataFusionError. Quick tier runs the harnesses calibrated <= 260 s (k/c17_calibration.json), thorough all 44.",
+             "sizes above 2^40. Shims: parking_lot::Mutex, fmt::format, human_readable_size, log::debug!, DataFusionError. Quick tier runs the harnesses calibrated <= 150 s (k/c17_calibration.json), thorough all 44.",
         design="8.5/C17",
     ),
     "C21": dict(
@@ -180,11 +180,15 @@ NOT_APPLICABLE = {
     "C53": "metrics are recorded by executing operators across partitions/tasks; needs the runtime",
 }
 
-# planned in DESIGN.md but the check is not built (yet): listed as not applicable until it exists and passes
+# planned in DESIGN.md, probed, and found out of reach of the installed solvers / not encodable in the time available
 PENDING = {
-    "C14": "planned (DESIGN 5/C14, engine K one-step harness): check not built yet",
-    "C28": "planned (DESIGN 5/C28, engine T): check not built yet",
-    "C40": "planned (DESIGN 5/C40, engine K file mount): check not built yet",
+    "C14": "the join hash map is a hashbrown::HashTable plus a chain vector: measured with Kani 0.68 - three symbolic inserts through the public API did not finish in 900 s; the verbatim join_hash_map.rs "
+           "against Vec-backed shims timed out at 1200 s / 8 GB with 4 build and 3 probe rows, and with 3 build / 2 probe rows over a 2-value hash domain the pagination loop was still unsolved after 12.5 min / 7 GB; "
+           "a one-step harness over shims would verify the shim of the hash table, not hashbrown, and was not built",
+    "C28": "the subject is data produced by executing physical operators (arrow executor, async streams) against the orderings / equivalence classes / partitionings they declare; there is no encodable unit short of a relational "
+           "semantics for every ExecutionPlan plus the EquivalenceProperties closure (orderings over arbitrary PhysicalExprs incl. monotonic functions); engine T's plan encoder covers logical plans only and was not extended",
+    "C40": "the caches are std HashMap (SipHash, RandomState) / DashMap keyed by object_store::Path with an LRU list of Arc<Mutex<node>> + Weak links (lru_queue.rs): hash maps and pointer-rich lists are beyond CBMC here "
+           "(HashMap probes ran out of memory or time, see DESIGN 2); validity rules depend on object-store metadata and wall-clock TTLs behind async listing code",
 }
 
 ENGINES = [
